@@ -11,6 +11,7 @@ import Driver.Calls
 import Driver.Visit
 import Driver.ParseStep
 import Driver.ParseWf
+import Driver.Cron
 
 def dispatch (line : String) : String :=
   match (line.trimAscii.toString.splitOn " ").filter (· ≠ "") with
@@ -40,6 +41,7 @@ def dispatch (line : String) : String :=
   | "snippet" :: args => Driver.RenderD.handleSnippet args
   | "indicator" :: args => Driver.RenderD.handleIndicator args
   | "jsonenc" :: args => Driver.RenderD.handleJsonEnc args
+  | "cron" :: args => Driver.CronD.handle args
   | "sanitize" :: args => Driver.RenderD.handleSanitize args
   | "exproffsets" :: args => Driver.RenderD.handleExprOffsets args
   | "proctrace" :: args => Driver.ProcD.handle args
